@@ -69,7 +69,9 @@ def main():
       target = "/tmp/mqs/seed-target"       # shared between confirmations (sequential use)
       shutil.rmtree(scratch, ignore_errors=True)
       os.makedirs("/tmp/mqs", exist_ok=True)
-      subprocess.check_call(["rsync", "-a", "--exclude", "target", "--exclude", ".git", REPO + "/", scratch + "/"])
+      # a clean copy of the pinned commit (not of the working tree, which another confirmation may have patched)
+      os.makedirs(scratch)
+      subprocess.check_call("git -C %s archive HEAD | tar -x -C %s" % (REPO, scratch), shell=True)
       shutil.copy(os.path.join(dst, "seed_demo.rs"), os.path.join(scratch, "tests", "seed_demo.rs"))
       env = {"CARGO_TARGET_DIR": target}
       # 1. demo without the change
